@@ -172,6 +172,35 @@ func evalComposite(pk *packages.Package, cl *ast.CompositeLit, t types.Type) (*L
 		}
 		return out, nil
 	}
+	if st, ok := t.Underlying().(*types.Struct); ok {
+		out.Elems = make([]*Lit, st.NumFields())
+		for i, el := range cl.Elts {
+			idx := i
+			val := el
+			if kv, isKV := el.(*ast.KeyValueExpr); isKV {
+				id, isID := kv.Key.(*ast.Ident)
+				if !isID {
+					return nil, fmt.Errorf("struct literal key is not a field name")
+				}
+				idx = -1
+				for j := 0; j < st.NumFields(); j++ {
+					if st.Field(j).Name() == id.Name {
+						idx = j
+					}
+				}
+				val = kv.Value
+			}
+			if idx < 0 || idx >= st.NumFields() {
+				return nil, fmt.Errorf("struct literal field out of range")
+			}
+			v, err := evalElem(pk, val, st.Field(idx).Type())
+			if err != nil {
+				return nil, err
+			}
+			out.Elems[idx] = v
+		}
+		return out, nil
+	}
 	return nil, fmt.Errorf("unsupported composite literal type %v", t)
 }
 
